@@ -487,6 +487,14 @@ def run(pid, tier, replay_path=None):
         cov["exhaustive"] = True
         if pid == "C01":
             cov["apalache_inductive_invariant"] = apalache_c01()
+            # beyond the listed properties: the bundled analyser (printrun.gcoder) against the same reference interpreter
+            from . import check_gcoder
+            for name, module, cfg, _root_text, expect in check_gcoder.model_runs():
+                r = tlc.model_check(module, cfg, timeout=600, tag="mc_" + name)
+                cov["model_runs"].append({"config": name, "states": r.distinct, "transitions": r.generated, "depth": r.depth,
+                                          "violated": r.violated, "wall_s": round(r.wall, 1), "actions_taken": {}})
+                if r.errors or r.distinct == 0 or sorted(r.violated) != sorted(expect):
+                    raise MachineryError("model check %s: violated %s, expected %s; %s\n%s" % (name, r.violated, expect, r.errors[:2], r.stdout[-1500:]))
         # (2) behaviours of the model replayed on the real code
         root, cfg = sim_config(pid)
         nb = 400 if thorough else 60
@@ -522,6 +530,14 @@ def run(pid, tier, replay_path=None):
         cov["impl_level_mismatch_samples"] = mism[:5]
         if mism:
             say("NOTE drift: %d of %d recorded calls differ from what BuilderImpl computes (first: %s)" % (len(mism), compared, mism[0]))
+    if pid == "C01" and not replay_path:
+        from . import check_gcoder
+        gv = check_gcoder.validate(traces)
+        cov["gcoder_cross_oracle"] = gv
+        if gv.get("impl_mismatches") or gv.get("disagreements_with_Machine"):
+            say("NOTE cross-oracle (beyond the listed properties): the bundled gcoder analyser differs from GcoderImpl on %d events and from "
+                "Machine.tla on %d events (outside the named deviation HomeZeroIsHomeAll, met on %d events)"
+                % (gv["impl_mismatches"], gv["disagreements_with_Machine"], gv["events_under_named_deviation_HomeZeroIsHomeAll"]))
     controls = [] if replay_path else make_controls(pid)
     failures, done, results = validate_traces(traces + controls)
 
@@ -558,9 +574,6 @@ def run(pid, tier, replay_path=None):
     for sig, fs in known_hit.items():
         say("KNOWN-FINDING: property=%s %s (%s) -- %d occurrences, e.g. trace %d step %d" %
             (pid, kf_sigs[sig]["id"], kf_sigs[sig]["description"], len(fs), fs[0][0], fs[0][1]))
-    gd = [n for n in NOTES if n[0] < nreal and n[1] == "gcoder"]
-    if gd and pid == "C01":
-        say("NOTE cross-oracle: the bundled gcoder analyser ends elsewhere than Machine.tla on %d of %d traces (first: trace %d)" % (len(gd), nreal, gd[0][0]))
     rc = EXIT_OK
     vpaths = []
     seen = set()
